@@ -22,6 +22,36 @@ func init() {
 
 func c01Gen(g *Gen, n int) {
 	// `client.lookup` correspondence ops are emitted here once the Lean client model exists (see lean/PENDING.md).
+	// Until then: the stored-head / in-memory-head part of faulty sequential runs is validated against the Lean
+	// latest-head machine with a hostile verification layer (`client.trace … hostile=1`).
+	wseed := g.U64()%1000 + 1
+	for emitted := 0; emitted < n; {
+		N := 1 + g.Intn(12)
+		h := 1 + g.Intn(2)
+		id := g.Intn(N)
+		var cases []c01Case
+		c01Enumerate(g.Rand, wseed, N, h, id, func(c c01Case) { cases = append(cases, c) })
+		if len(cases) == 0 {
+			continue
+		}
+		for k := 0; k < 40 && emitted < n; k++ {
+			c := cases[g.Intn(len(cases))]
+			sc, ok := clParseScenario(strings.Fields(c.line)[1:])
+			if !ok {
+				continue
+			}
+			out := clRunScenario(sc)
+			emitted++
+			if out.bad || out.hang {
+				continue
+			}
+			if l, ok := clLatestTrace(out, true); ok {
+				g.Emit(l, !c.honest, "trace/"+strings.SplitN(c.tag, "/", 2)[0])
+			} else {
+				g.st.Tags["trace-not-expressible"]++
+			}
+		}
+	}
 }
 
 type c01Case struct {
@@ -313,34 +343,46 @@ func c01Judge(g *Gen, c c01Case) {
 }
 
 func c01Oracle(g *Gen, n int) {
+	if n <= 0 {
+		return
+	}
 	maxN, heights := 12, []int{1, 2}
 	if thorough {
 		maxN, heights = 70, []int{1, 2, 3, 4, 8}
 	}
 	wseed := g.U64()%1000 + 1
-	var cases []c01Case
+	type triple struct{ N, h, id int }
+	var triples []triple
 	for N := 1; N <= maxN; N++ {
 		for _, h := range heights {
 			for id := 0; id < N; id++ {
 				if thorough && N > 16 && g.Intn(N/8) != 0 {
 					continue // larger logs: a seed-chosen subset of record ids
 				}
-				c01Enumerate(g.Rand, wseed, N, h, id, func(c c01Case) { cases = append(cases, c) })
+				triples = append(triples, triple{N, h, id})
 			}
 		}
 	}
-	// budget: n scenarios, spread evenly over the enumeration (honest cases always kept)
-	stride := 1
-	if len(cases) > n && n > 0 {
-		stride = (len(cases) + n - 1) / n
-	}
-	off := g.Intn(stride)
-	g.st.OracleTags["enumerated"] = len(cases)
-	for i, c := range cases {
-		if c.honest || i%stride == off {
-			c01Judge(g, c)
+	// budget: about n scenarios, spread evenly over the (N, h, id) triples; within a triple a seed-chosen subset of the
+	// enumeration (honest cases always kept)
+	per := n/len(triples) + 1
+	total := 0
+	for _, t := range triples {
+		var cases []c01Case
+		c01Enumerate(g.Rand, wseed, t.N, t.h, t.id, func(c c01Case) { cases = append(cases, c) })
+		total += len(cases)
+		stride := 1
+		if len(cases) > per {
+			stride = (len(cases) + per - 1) / per
+		}
+		off := g.Intn(stride)
+		for i, c := range cases {
+			if c.honest || i%stride == off {
+				c01Judge(g, c)
+			}
 		}
 	}
+	g.st.OracleTags["enumerated"] = total
 	// fixed regressions: the F6 scenario (forged record + forged leaf tile, honest head) and O3
 	for _, l := range []string{
 		"client.run w=1:7:0:0 h=2 f+=L/recsrc/F0@7 f+=T0.0/src/F0@7 new=0 look=0:A0 look=0:A0m f-= new=0 look=0:A0",
